@@ -173,6 +173,22 @@ namespace bloch::compiler {
                    !actual.className.empty() && !actual.isTypeParam;
         }
 
+        // '{...}' has no type of its own; it is only meaningful where an array is expected.
+        void rejectArrayLiteralInto(const SemanticAnalyser::TypeInfo& target, Expression* value,
+                                    int line, int column) {
+            Expression* v = value;
+            while (auto paren = dynamic_cast<ParenthesizedExpression*>(v)) v = paren->expression.get();
+            if (!dynamic_cast<ArrayLiteralExpression*>(v))
+                return;
+            bool targetIsArray = target.className.size() >= 2 &&
+                                 target.className.rfind("[]") == target.className.size() - 2;
+            if (!targetIsArray && !target.isTypeParam &&
+                (target.value != ValueType::Unknown || !target.className.empty())) {
+                throw BlochError(ErrorCategory::Semantic, line, column,
+                                 "an array literal needs an array type");
+            }
+        }
+
         bool isBitArrayType(const SemanticAnalyser::TypeInfo& t) {
             return isArrayType(t) && !t.typeArgs.empty() && t.typeArgs[0].className.empty() &&
                    t.typeArgs[0].value == ValueType::Bit;
@@ -813,6 +829,7 @@ namespace bloch::compiler {
             return;
 
         TypeInfo targetInfo = typeFromAst(declaredType);
+        rejectArrayLiteralInto(targetInfo, initializer, line, column);
         inferDiamondTypeArguments(initializer, targetInfo, line, column);
         TypeInfo initInfo = inferTypeInfo(initializer);
 
@@ -1738,6 +1755,7 @@ namespace bloch::compiler {
                              "Non-void function must return a value");
         }
         if (node.value) {
+            rejectArrayLiteralInto(m_currentReturn, node.value.get(), node.line, node.column);
             inferDiamondTypeArguments(node.value.get(), m_currentReturn, node.line, node.column);
             auto actual = inferTypeInfo(node.value.get());
             if (!isVoid) {
@@ -1934,6 +1952,7 @@ namespace bloch::compiler {
             if (node.value) {
                 TypeInfo targetType = getVariableType(node.name);
                 rejectQubitAssignment(targetType, node.line, node.column);
+                rejectArrayLiteralInto(targetType, node.value.get(), node.line, node.column);
                 inferDiamondTypeArguments(node.value.get(), targetType, node.line, node.column);
                 auto valType = inferTypeInfo(node.value.get());
                 if (valType.value == ValueType::Null) {
@@ -1960,6 +1979,7 @@ namespace bloch::compiler {
             if (node.value) {
                 TypeInfo targetType = field->type;
                 rejectQubitAssignment(targetType, node.line, node.column);
+                rejectArrayLiteralInto(targetType, node.value.get(), node.line, node.column);
                 inferDiamondTypeArguments(node.value.get(), targetType, node.line, node.column);
                 auto valType = inferTypeInfo(node.value.get());
                 bool fieldIsArray =
@@ -2633,6 +2653,7 @@ namespace bloch::compiler {
             if (node.value) {
                 TypeInfo targetType = getVariableType(node.name);
                 rejectQubitAssignment(targetType, node.line, node.column);
+                rejectArrayLiteralInto(targetType, node.value.get(), node.line, node.column);
                 inferDiamondTypeArguments(node.value.get(), targetType, node.line, node.column);
                 auto valType = inferTypeInfo(node.value.get());
                 if (valType.value == ValueType::Null) {
@@ -2659,6 +2680,7 @@ namespace bloch::compiler {
             if (node.value) {
                 TypeInfo targetType = field->type;
                 rejectQubitAssignment(targetType, node.line, node.column);
+                rejectArrayLiteralInto(targetType, node.value.get(), node.line, node.column);
                 inferDiamondTypeArguments(node.value.get(), targetType, node.line, node.column);
                 auto valType = inferTypeInfo(node.value.get());
                 bool fieldIsArray =
